@@ -216,8 +216,7 @@ def blockContent (literal : Bool) (chomping : Chomping) (indent : Nat) (trailing
     pure ⟨⟨s.mark, s2.mark⟩, .scalar (if literal then ScalarStyle.literal else ScalarStyle.folded) str⟩
 
 /-- after the header line: indentation detection, then either the end of the stream or the content -/
-def blockAfterHeader (literal : Bool) (startMark : Marker) (chomping : Chomping) (increment : Nat)
-    (chompingBreak : Str) : S Token := do
+def blockAfterHeader (literal : Bool) (startMark : Marker) (chomping : Chomping) (increment : Nat) (chompingBreak : Str) : S Token := do
   if (← lookCh) == '\t' then err startMark "a block scalar content cannot start with a tab"
   else do
     let s ← getS
